@@ -13,11 +13,15 @@ Definition observed (o : top) : pred :=
   match o with
   | TRead _ _ r => PVal r
   | TWrite _ _ _ ok | TCreate _ _ _ ok | TDelete _ _ ok | TCommit _ ok => POk ok
+  | TList _ l => PList l
   | _ => PNone
   end.
+Fixpoint ln_eqb (a b : list nat) : bool :=
+  match a, b with [], [] => true | x :: a', y :: b' => Nat.eqb x y && ln_eqb a' b' | _, _ => false end.
 Definition pred_eqb (a b : pred) : bool :=
   match a, b with
-  | PNone, PNone => true | PVal x, PVal y => val_eqb x y | POk x, POk y => Bool.eqb x y | _, _ => false end.
+  | PNone, PNone => true | PVal x, PVal y => val_eqb x y | POk x, POk y => Bool.eqb x y | PList x, PList y => ln_eqb x y
+  | _, _ => false end.
 
 (* documents probed: 0..n-1 then the created ones in order of first appearance in the schedule *)
 Fixpoint created (l : list (top * list value)) (seen : list nat) : list nat :=
